@@ -206,6 +206,20 @@ def run(ctx):
     cases = gen_cases(ctx)
     by_id = {h.split()[0]: (h, ops) for h, ops in cases}
     res = run_both(ctx, binp, drv_dd, drv_tr, cases)
+    # failures caused by the operating system refusing threads / memory are not verdicts: re-run those cases
+    for attempt in range(3):
+        rid = {cid for cid, m in res["bad_tr"] + res["bad_dd"] if vf.RESOURCE_RE.search(m)}
+        if not rid:
+            break
+        ctx.add_stat("resource_failures_retried", len(rid))
+        import time as _t
+        _t.sleep(5 + 5 * attempt)
+        res2 = run_both(ctx, binp, drv_dd, drv_tr, [by_id[c] for c in sorted(rid)], tag=f"-resretry{attempt}")
+        for key in ("bad_tr", "bad_dd"):
+            res[key] = [(c, m) for c, m in res[key] if c not in rid] + res2[key]
+        res["impl"].update(res2["impl"])
+    if any(vf.RESOURCE_RE.search(m) for _, m in res["bad_tr"] + res["bad_dd"]):
+        raise vf.CheckFailure("operating-system resources exhausted (threads / memory) while running the parallel cases; not a verdict")
     seen = set()
     for src, bads in (("trace", res["bad_tr"]), ("dd", res["bad_dd"])):
         for cid, msg in bads:
